@@ -1,7 +1,7 @@
 //! C17 engine binary: misbehaving Eq / Borrow, safety monitors only.
 use engines::common::Ctx;
 use engines::fam::{Heap, Track};
-use engines::liar::{stats, Liar};
+use engines::liar::{overfill, stats, Liar, NeverEq};
 
 fn main() {
     let mut cx = Ctx::from_args("eng_liar");
@@ -12,6 +12,20 @@ fn main() {
     let budget = l.cx.budget;
     let (si, sn) = l.cx.shard;
     let mut h = si;
+    if budget > 0 && l.cx.only_hist.is_none() {
+        // small key spaces under a lying ==
+        use support::elems::{z_set_eq, Z};
+        z_set_eq(false);
+        overfill::<Z, 1>(&mut l, "Z(zero-sized)", &|_| Z::new());
+        overfill::<Z, 3>(&mut l, "Z(zero-sized)", &|_| Z::new());
+        overfill::<Z, 8>(&mut l, "Z(zero-sized)", &|_| Z::new());
+        z_set_eq(true);
+        overfill::<NeverEq, 2>(&mut l, "NeverEq(1 byte)", &|i| NeverEq(i as u8));
+        if si == 0 && !l.cx.args.flag("light") {
+            overfill::<NeverEq, 256>(&mut l, "NeverEq(1 byte)", &|i| NeverEq(i as u8));
+            overfill::<NeverEq, 300>(&mut l, "NeverEq(1 byte)", &|i| NeverEq(i as u8));
+        }
+    }
     while l.cx.rep.evaluations < budget {
         if let Some(o) = l.cx.only_hist {
             h = o;
